@@ -141,4 +141,76 @@ def optKeeps {K} (l : Lowered K) : Bool :=
   defUse (l.privRows.map (resolve (optimize l.ops l.privRows.toList).2)).toList
     (optimize l.ops l.privRows.toList).1.toList
 
+/-! ### Builder-side guards for the optimiser step (`P3R.C09O`)
+
+De-duplication may remove the only row that had a slot in its `b` column and keep a commutative
+duplicate that has it in `a` (`Witness.C09Compile.tbl_dedup_breaks`). An `a` request creates only
+private inputs and hint outputs, so the slot of a *table-backed* call output loses its creator in the
+primitive scan. `noTableOutputsUsed`: no table-backed call output is an operand of an arithmetic
+node, or shares a connect class with one. `operandsGuarded`: the operand that the lowering puts into
+the `a` column of an `Add` / `Mul` row (the two kinds with a commutative key) has, like the `b`
+operand under `hintsGuarded`, a class member whose slot is certainly created when the row is emitted. -/
+
+/-- Is node `j` an output of a table-backed call? -/
+def isTableOut {K} (b : BState K) (j : Nat) : Bool :=
+  match b.nodes[j]? with
+  | some (Expr.npOut call _) =>
+    match b.nodes[call]? with
+    | some (Expr.npCall op _) =>
+      match b.npOps[op]? with
+      | some d =>
+        match d.kind with
+        | .table _ => true
+        | _ => false
+      | none => false
+    | _ => false
+  | _ => false
+
+/-- Operand expressions of an arithmetic node. -/
+def Expr.operands {K} : Expr K → List Nat
+  | .add a b | .sub a b | .mul a b | .div a b => [a, b]
+  | .horner acc al pz px => [acc, al, pz, px]
+  | .mulAdd a b c => [a, b, c]
+  | .boolCheck v => [v]
+  | _ => []
+
+/-- No table-backed call output is an operand of an arithmetic node or a member of the connect
+class of one. -/
+def noTableOutputsUsed {K} (b : BState K) : Bool :=
+  let R := Dsu.ofConnects (b.nodes.size + 1) b.connects
+  let C := connectFlags b
+  (List.range b.nodes.size).all fun i =>
+    match b.nodes[i]? with
+    | some e => e.operands.all fun l =>
+        (List.range b.nodes.size).all fun j => !(sameClass R C j l && isTableOut b j)
+    | none => true
+
+/-- The operand that the lowering puts into the `a` column of the `Add` / `Mul` row of the node. -/
+def Expr.aPos {K} (nodes : Array (Expr K)) : Expr K → Option Nat
+  | .add l _ => some l
+  | .mul l _ => some l
+  | .sub l r =>
+    match nodes[l]?, nodes[r]? with
+    | some (Expr.mul _ _), some (Expr.const _) => some l
+    | _, _ => some r
+  | .div _ r => some r
+  | _ => none
+
+/-- Every `a` operand of an `Add` / `Mul` row has a creator in its connect class (`creatorFor`). -/
+def operandsGuarded {K} (b : BState K) : Bool :=
+  (List.range b.nodes.size).all fun i =>
+    match b.nodes[i]? with
+    | some e =>
+      match e.aPos b.nodes with
+      | some l => creatorFor b.nodes (Dsu.ofConnects (b.nodes.size + 1) b.connects) (connectFlags b) i l
+      | none => true
+    | none => true
+
+/-- The fusion pass keeps the certificate of the de-duplicated list (decidable; an implication): the
+one step of `compile ⇒ defUse` that is not proved for every program after `P3R.C09O`. -/
+def fuseKeeps {K} (l : Lowered K) : Bool :=
+  let d := dedup l.ops
+  let P := l.privRows.toList.map (resolve d.2)
+  !(defUse P d.1.toList) || defUse P (fuse d.1 P).toList
+
 end P3R
